@@ -135,6 +135,22 @@ def apply_op(o, x, aux, aux2, mask):
         return x[tuple(idx)]
     if op == "unsqueeze":
         return x.unsqueeze(o["dim"] - 1)
+    if op == "slice_step":
+        idx = [slice(None)] * x.ndim
+        idx[o["dim"] - 1] = slice(None, None, 2)
+        return x[tuple(idx)]
+    if op == "select_neg":
+        return x.select(o["dim"] - 1 - x.ndim, -1)
+    if op == "squeeze":
+        return x.squeeze()
+    if op == "flatten":
+        return x.flatten()
+    if op == "mul_t":
+        return x * torch.tensor(float(o["k"]), dtype=x.dtype)
+    if op == "div_t":
+        return x / torch.tensor(float(o["k"]), dtype=x.dtype)
+    if op == "rmul":
+        return o["k"] * x
     if op == "expand":
         return x.expand(2, *x.shape)
     if op == "cat":
